@@ -243,7 +243,10 @@ def r17_4(ctx):
             elif v == 'False':
                 ok = ok and ('self._flag.acquire(False)', False) in g
             else:
-                ok = False
+                # the answer of the probe itself, kept in a local: flag = self._flag.acquire(False) ... return flag
+                defs = [d for (dn, t, d) in q.assigns(fi, v)] if isinstance(r0.ast.value, ast.Name) else []
+                ok = ok and len(defs) == 1 and defs[0] is not None and \
+                    ast.unparse(defs[0]).replace(' ', '') == 'self._flag.acquire(False)'
         ctx.ob('R17.4', 'Event.%s:returns-the-probe' % name, ok, fi, None, 'True iff the probe succeeded')
     wt = ci.methods['wait']
     cw = [(n, c) for (n, c) in q.calls(wt, 'self._cond.wait')]
